@@ -1,11 +1,12 @@
 (* C14 -- ignore-file discovery finds exactly the applicable files and prunes ignored dirs.
    PARTIAL: proved for the stack-machine model are the exact shape / tagging of every returned file, the
-   find_file rule and the explicit-watch relation, plus the one-step pruning facts.  The equality with the
-   structural specification ("reachable without entering an ignored directory") and the independence from the
-   listing order are checked by the correspondence run (two listing orders + the real crate), see DESIGN.md.
-   Proofs: Discover/DiscoverProofs.v *)
+   find_file rule and the explicit-watch relation, and pruning: once a directory has been skipped nothing from it or
+   from anywhere below it is returned afterwards, for every file system with absolute paths and every state the walk
+   reaches.  Completeness (every non-pruned directory is visited) and the independence from the listing order are checked by
+   the correspondence run (two listing orders + the real crate), see DESIGN.md.
+   Proofs: Discover/DiscoverProofs.v, Discover/DiscoverPrune.v *)
 From Coq Require Import List NArith String Ascii Bool.
-From WX Require Import Base.Bytes Glob.Glob Glob.Gitignore Ignore.IgnoreFilter Gen.Origins_gen Discover.Discover Discover.DiscoverProofs.
+From WX Require Import Base.Bytes Glob.Glob Glob.Gitignore Ignore.IgnoreFilter Gen.Origins_gen Discover.Discover Discover.DiscoverProofs Discover.DiscoverPrune Ignore.IgnoreEquiv.
 Import ListNotations.
 Open Scope string_scope.
 Open Scope list_scope.
@@ -42,3 +43,19 @@ Example C14_example :
   map show_dfile (from_origin gm_glob content fs "/o" [] [] None)
   = ["/o/.gitignore|/o|Git"; "/o/tests/.gitignore|/o/tests|Git"].
 Proof. vm_compute. reflexivity. Qed.
+
+(* pruning is permanent: from any state of the walk, nothing is returned later from a skipped directory or below it *)
+Theorem C14_pruned_stays_out : forall gm content fs base watches,
+  (forall e, In e fs -> absolute (fst e)) ->
+  forall n t, PInv t ->
+  forall f, In f (t_files (run gm content n fs base watches t)) ->
+  In f (t_files t) \/ exists d, d_in f = Some d /\ forall p, In p (t_skip t) -> is_under p d = false.
+Proof. exact pruned_stays_out. Qed.
+Print Assumptions C14_pruned_stays_out.
+
+(* ... and every state the walk of from_origin reaches is such a state *)
+Theorem C14_walk_states_have_the_invariant : forall gm content fs base watches,
+  (forall e, In e fs -> absolute (fst e)) -> absolute base ->
+  forall n filt files, PInv (run gm content n fs base watches (mkT [base] [] filt files)).
+Proof. intros gm content fs base watches Hfs Hb n filt files. apply run_pinv; [exact Hfs | apply init_pinv; exact Hb]. Qed.
+Print Assumptions C14_walk_states_have_the_invariant.
